@@ -8,9 +8,32 @@ from vmc.oracles import structure
 NANO = ["glyf_colr_1", "glyf_colr_0", "cff2_colr_1", "picosvg", "untouchedsvgz", "cbdt", "sbix"]
 
 
+def exec_third_party(case):
+    """maximum_color on a font nanoemoji did not build (kerning, marks, a chaining context): the glyph order is rearranged
+    for the added OT-SVG table, every layout table has to stay valid"""
+    from vmc.core import lattice
+    from vmc.drive import cli
+    from vmc.props import c12
+
+    w = cli.mkscratch("c07t")
+    try:
+        data = c12.third_party(lattice.full(c12.DIMS, {"kind": case["input"]}))
+        (w / "In.ttf").write_bytes(data)
+        r = cli.maximum_color(w, ["--build_dir", str(w / "mc"), "--output_file", "Max.ttf", "--keep_glyph_names"] + (["--bitmaps"] if case.get("bitmaps") else []) + [str(w / "In.ttf")])
+        out = w / "mc" / "Max.ttf"
+        if r.returncode != 0 or not out.exists():
+            return [bad("C07.cli-build", f"maximum_color on the third-party {case['input']} font: exit {r.returncode}: {(r.stderr or '')[-300:]}")]
+        vs = [bad(c, f"maximum_color({case['input']}): {d}") for c, d in structure.check(out.read_bytes(), want_names=True)[:5]]
+        return vs or [ok("C07.valid", f"cli:{case['input']}:maximum_color")]
+    finally:
+        shutil.rmtree(w, ignore_errors=True)
+
+
 def execute(case):
     from vmc.drive import cli, conformance
 
+    if case.get("input"):
+        return exec_third_party(case)
     w = cli.mkscratch("c07c")
     try:
         fmt = case["fmt"]
@@ -58,5 +81,6 @@ def run(report, tier):
             cases.append({"kind": "cli", "fmt": fmt, "keep": keep, "maximum_color": mc, "seq": True})
     for fmt in ("picosvg", "glyf_colr_1"):
         cases.append({"kind": "cli", "fmt": fmt, "keep": True, "maximum_color": "bitmaps", "empty_middle": True})
+    cases += [{"kind": "cli", "input": "third_colr1"}, {"kind": "cli", "input": "third_colr0"}, {"kind": "cli", "input": "third_colr1", "bitmaps": True}]
     listing.run(report, cases, execute, timeout=900, jobs=6)
     report.extra["cli_fonts_checked"] = len(cases)
